@@ -67,6 +67,55 @@ CHECKS = {
             "final on-disk bytes in configured order.",
             "XXH3 core of the xxhash wheel is trusted (cross-checked on "
             "published vectors); hashlib one-shot is trusted.", "5 C16"),
+    "C02": ("exploration",
+            "Hypothesis datasets x generated read configurations vs a "
+            "reference multiset model; component-level multiset round-trip on "
+            "integer streams",
+            "Generated datasets (nested shard lists, short last shards) read "
+            "with repeat=False through all five interfaces with shuffle "
+            "relative to N, parallelism relative to S, process_record and "
+            "generated per-shard delays; Counter(ids)==model and content per "
+            "id; process_record applied exactly once. Plus 20k component "
+            "cases (shuffle_buffer, round_robin, async twins, LazyPool).",
+            "Thread timing of tf.data, Rust and OS threads is perturbed, not "
+            "enumerated; the oracle is timing-insensitive.", "5 C02"),
+    "C03": ("exploration",
+            "Hypothesis histories x repeated/reopened/parallelism-varied "
+            "unshuffled passes; sequence equality + per-session write-order "
+            "invariant",
+            "All passes of one interface (2 on the kept handle, 1 reopened, "
+            "several file_parallelism values, generated reader delays) must "
+            "be the identical sequence and every session's ids must appear "
+            "in write order (multi-writer: argument order).",
+            "Worker timing perturbed by generated delays; real multi-process "
+            "writers included.", "5 C03"),
+    "C12": ("exploration",
+            "Hypothesis datasets with metadata groups x selection options vs "
+            "a reference selection written from the doc-string, per interface",
+            "shards=k, shard_filter (predicate family) and per-metadata limit "
+            "and their combinations on every interface that has the "
+            "parameter, shuffled and unshuffled; expected = decoded contents "
+            "of the reference-selected shard files; empty selection must "
+            "raise.",
+            "Reference selection derived from the documented semantics "
+            "(filter, non-empty, first k, first n per group).", "5 C12"),
+    "C14": ("exploration",
+            "counting sources (finite/infinite, guarded) through every "
+            "buffering component incl. the Rust parallel_map driver; "
+            "inotify-counted shard opens for take-k on repeating datasets",
+            "Read-ahead after the j-th output bounded by j + (b | 2T+2 | T) "
+            "+ 1 for every component; dataset level: shard opens for taking "
+            "k examples from a repeating stream bounded by a function of "
+            "configured values only, for S and 4S shards.",
+            "tf.data native pipeline only gets a generous S-independent "
+            "bound; inotify IN_OPEN counts opens.", "5 C14"),
+    "C19": ("exploration",
+            "Hypothesis datasets x repeating reads; prefix of m*N+r elements "
+            "vs periodicity / membership / per-epoch permutation oracles",
+            "repeat=True (explicit and default) on every interface; stream "
+            "must not end within 2..4 epochs, only examples of the split, "
+            "unshuffled periodic with the one-pass sequence, Rust epochs are "
+            "permutations.", "Prefixes only (stream is infinite).", "5 C19"),
 }
 
 NOT_YET = {}
